@@ -96,7 +96,7 @@ Definition pt_sem (op : ptop) (v : dval) : dval * option uerr :=
 Definition PT (id : nat) (op : ptop) : ptr := {| pt_id := id; pt_fn := pt_sem op |}.
 
 (** ** Preprocess functions: Preprocess[string,string] (Parse) / Preprocess[*string,string] (Validate) *)
-Inductive preop := PreUpper | PreTrim | PreErr | PreIssue | PreWrap.
+Inductive preop := PreUpper | PreTrim | PreErr | PreIssue | PreWrap | PreBlank.   (* PreBlank: every input becomes the empty string *)
 Definition opaque_msg : string := "<opaque>".
 Definition PRE (id : nat) (op : preop) : prefn :=
   {| pre_id := id;
@@ -105,6 +105,7 @@ Definition PRE (id : nat) (op : preop) : prefn :=
        | VStr s => Some (match op with
                          | PreUpper => inl (VStr (upper s))
                          | PreTrim => inl (VStr (trim_sp s))
+                         | PreBlank => inl (VStr "")
                          | PreErr => inr (UErr "pre error")
                          | PreIssue => inr (UIssue user_issue)
                          | PreWrap => inr (UErr "delegated check failed")
@@ -116,6 +117,7 @@ Definition PRE (id : nat) (op : preop) : prefn :=
        | DStr s => match op with
                    | PreUpper => inl (DStr (upper s))
                    | PreTrim => inl (DStr (trim_sp s))
+                   | PreBlank => inl (DStr "")
                    | PreErr => inr "pre error"
                    | PreIssue | PreWrap => inr opaque_msg
                    end
